@@ -27,7 +27,12 @@ fn h(e: impl ToString) -> Failure {
 
 impl WirePeer {
     pub async fn new(local_asn: u32, cfg: NeighborCfg) -> Result<WirePeer, Failure> {
-        let rig = AdmitRig::new(local_asn, None).await.map_err(h)?;
+        Self::new_in(local_asn, None, cfg).await
+    }
+
+    /// the speaker is a member of a confederation (identifier, member AS numbers)
+    pub async fn new_in(local_asn: u32, confederation: Option<(u32, Vec<u32>)>, cfg: NeighborCfg) -> Result<WirePeer, Failure> {
+        let rig = AdmitRig::new(local_asn, confederation).await.map_err(h)?;
         let src = cfg.addr;
         if !rig.add_neighbor(&cfg).await {
             return Err(h(format!("add_peer refuses {cfg:?}")));
